@@ -72,6 +72,62 @@ def run_impl(case):
     return core.safe_call(impl_case, case, limit=60)
 
 
+# ---- independent reading of the documented label grammar (Python twin of coq/Model/Label.v), used as
+# the L3 oracle of the label cases: "@"/"~" role, name, parameters between the first "(" after the name
+# and the LAST ")", separated by ", " (comma + blank), keywords with ":" or "=", "|" lists, typed atoms
+def _ref_atom(a):
+    if a.startswith("'") and "'" in a[1:]:
+        return ["str", a[1:a.rindex("'")]] if a.rindex("'") > 0 else ["str", a]
+    body = a[1:] if a[:1] in "+-" else a
+    if body.isascii() and body.isdigit():
+        return ["int", int(a)]
+    parts = body.split(".")
+    if len(parts) == 2 and ((parts[0].isdigit() and (parts[1].isdigit() or parts[1] == "")) or (parts[0] == "" and parts[1].isdigit())) \
+            and body.isascii():
+        return ["float", float(a)]
+    return ["str", a]
+
+
+def _ref_value(v):
+    return ["list", [_ref_atom(x) for x in v.split("|")]] if "|" in v else _ref_atom(v)
+
+
+def ref_parse(sub):
+    import re
+    l = sub.strip()
+    if not l.endswith(")"):
+        l += "()"
+    if not l or l[0] not in "@~":
+        return None
+    rest = l[1:]
+    best = None
+    for j in range(1, len(rest)):
+        if rest[j] == "(" and not any(c.isspace() for c in rest[:j]) and ")" in rest[j + 1:]:
+            best = j                      # largest name prefix
+    if best is None:
+        return None
+    name = rest[:best]
+    inner = rest[best + 1:]
+    inner = inner[:inner.rindex(")")]
+    pos, kws = [], []
+    for a in inner.split(", "):
+        if a == "":
+            continue
+        if ":" in a:
+            parts = a.split(":")
+            if len(parts) != 2:
+                return None
+            kws.append([parts[0], _ref_value(parts[1])])
+        elif "=" in a:
+            parts = a.split("=")
+            if len(parts) != 2:
+                return None
+            kws.append([parts[0], _ref_value(parts[1])])
+        else:
+            pos.append(_ref_atom(a))
+    return [l[0] == "@", name, pos, kws]
+
+
 # ---- Coq terms
 def cstr(s):
     return "(lit %s)" % cstring(s)
@@ -113,7 +169,8 @@ def coq_case(case, out):
 
 
 # ---- (a) generators of labels
-ATOMS_STR = ["BsmBI_site", "ATG", "ACGTN", "e_coli", "both", "h_sapiens", "x", "GTG", "9xA", "3x2mer", "40%", "40-60%/20bp"]
+ATOMS_STR = ["BsmBI_site", "ATG", "ACGTN", "e_coli", "both", "h_sapiens", "x", "GTG", "9xA", "3x2mer", "40%", "40-60%/20bp",
+             "A{3,5}", "G{4,}", "(AT){2,3}C", "x,y"]
 
 
 def gen_value(rng):
@@ -243,7 +300,18 @@ def oracle(case, out):
         return "harness/implementation raised: %r" % (out[:3],)
     o = out[1]
     if case[0] == "label":
-        return None          # decided by the grammar correspondence
+        label = case[1]
+        if any(ord(c) > 126 or c in '"' for c in label) or "\n" in label or "\t" in label:
+            return None
+        for sub, got in zip(label.split("&"), o):
+            exp = ref_parse(sub)
+            if got is not None and exp is not None and (got[0] != exp[0] or got[1] != exp[1] or got[2] != exp[2] or got[3] != exp[3]):
+                return "label %r is not parsed as the documented grammar says: got %r, documented %r" % (sub, got, exp)
+            if (got is None) != (exp is None):
+                # ill-formed labels: the implementation may reject more than the grammar sketch (or the
+                # constructor recorder may accept less); decided by the Coq correspondence only
+                continue
+        return None
     if "skipped" in o:
         return None
     if "error" in o:
